@@ -84,6 +84,7 @@ const CONTEXTS = [
   // every other position an expression can take: loop heads, tests, discriminants, patterns, class heritage and keys
   (j) => `for (const { label = (${j}) } of items) use(label);\nfor ([key = (${j})] in rows) use(key);\nfor (const { [(<i />).type]: v = (${j}) } of rows) use(v);`,
   (j) => `for (let a = (${j}); a; a = null) use(a);\nfor (; (${j}); ) break;\nfor (;; x = ${j}) break;\nfor (const q of [(${j})]) use(q);\nfor (const k in { a: (${j}) }) use(k);`,
+  (j) => `do use(1); while (!(${j}));\ndo use(2); while (false);`,
   (j) => `while (${j}) break;\ndo { use(1); } while (!${j});\nswitch (${j}) { case (${j}): break; }\nif (${j}) use(1); else if (${j}) use(2);`,
   (j) => `function thrower() { if (c) throw (${j}); return typeof (${j}); }\nconst u = [void (${j}), !(${j}), delete (${j}).x, (${j})?.props, new ((${j}).type)(), (${j}).type\`t\`, tag\`a\${(${j})}b\`];`,
   (j) => `class K2 extends (${j}, Base) { [(<i />).key]() { return (${j}); } static x = ${j}; #p = ${j}; static #q = ${j}; accessor = ${j}; constructor(a = ${j}) { super(${j}); } }`,
@@ -123,11 +124,15 @@ export const ODD_FORMS = [
   '`${renderToString(<div />)}`;', 'const t = <div title={`${items.map((i) => <li>{i}</li>).length} rows`} />;', 'tag`a${<A>{f()}</A>}b`;',
   'async function f1() { return <A>{g(await h())}</A>; }', 'async function f2(x) { return <A>{x}{class { [await key()]() {} }}</A>; }', 'function* g1() { return <A>{class { static [yield 1] = 1 }}</A>; }', 'async function f3() { return <A><B>{await p}</B></A>; }',
   '<C {...r} v-models={[[x]]} />', '<C id="a" {...a} {...b} v-models={[[x, "y"]]} />', '<C {...r} v-model={x} {...s} v-models={[[y, "z"]]} />',
+  'for (const row of rows) out.push(<Wrapper>{cell(row)}</Wrapper>);', 'while (c) y = <A>{f()}</A>;', 'do x = <A>{f()}</A>; while (c);', 'for (const k in o) if (k) r = <A>{f()}</A>;', 'do use(1); while (!accept(<Probe>{measure(n)}</Probe>));',
+  '<div v-x={[v, "a", ["a.b"]]} />', '<input v-model={[val, ["trim.lazy"]]} />', '<C v-model={state?.value} />', '<input v-model={form.fields?.[name]} />', '<C v-models={[[s?.a, "a"]]} />',
   '<A v-foo:a-b={x} />', '<A v-foo:1={x} />', '<div data-a-b-c="1" aria-x />', '<div a.b="1" />'.replace('a.b', 'ab'),
 ];
 
 // TSX modules with legal-but-odd forms on the resolveType path
 export const ODD_TSX = [
+  'export namespace UI.Icons { export const Close = () => <i class="icon-close" />; }', 'namespace N { export const a = <i>{x}</i>; }\nexport const b = <A>{f()}</A>;',
+  "export const s = <Comp sizes={['small', 'large'] as const} kind={'text' as const} n={(1 as const)} />;", 'export const t = <input type={("text") as any} v-model={(m as any).v} />;',
   'import { defineComponent } from "vue";\nexport const C = defineComponent(...[() => () => <div />]);',
   'import { defineComponent } from "vue";\nconst rest: any[] = [];\nexport const C = defineComponent((props: { a?: string }) => () => <i>{props.a}</i>, ...rest);',
   'import { defineComponent } from "vue";\nexport const C = defineComponent(...[(props: {}) => () => <A>{f()}</A>, { name: "X" }] as const);',
@@ -187,6 +192,10 @@ export function advCases() {
     out.push({ tag: 'shadow-scope-prop-type', expectDiag: false, src: wrap(scopes.join('\n'), '{ p: Shared; q?: Shared | string }'), syntax: 'tsx', options: rt });
   }
   for (const [decls, p] of unresolvable) out.push({ tag: 'unresolvable-type', expectDiag: true, src: wrap(decls, p), syntax: 'tsx', options: rt });
+  unresolvable.push(['import type { Keys } from "./ext";', 'Pick<{ a: 1; b: 2 }, Keys>'], ['import type { Keys } from "./ext";', '{ a: 1; b: 2 }[Keys]'], ['import type { Keys } from "./ext";', 'Omit<{ a: 1 }, Keys>'], ['', 'Pick<{ a: 1 }, Undeclared>']);
+  for (const e of ['(e: Ext) => void', '{ (e: Ext): void }', '(e: Ext | "a") => void']) out.push({ tag: 'unresolvable-type', expectDiag: true, src: wrap('import type { Ext } from "./ext";', '{}', e), syntax: 'tsx', options: rt });
+  // option sets whose patterns are each valid but would not be when glued together
+  for (const pats of [['^x-(?P<rest>.+)$', '^y-(?P<rest>.+)$'], ['(?x) ^x- # vendor elements', '^i-'], ['a|b', '(?i)c'], ['[', ']'].length ? ['\\[x', 'y\\]'] : []]) out.push({ tag: 'pattern-list', src: 'const v = <x-a><y-b>{t}</y-b><Comp>{f()}</Comp></x-a>;', syntax: 'jsx', options: { customElementPatterns: pats } });
   const malformed = ['<C v-model />', '<C v-model="s" />', '<input v-model />', '<C v-models />', '<C v-models="s" />', '<C v-models={x} />', '<div v-html />', '<div v-text />', '<C v-model={[]} />', '<C v-model={[, "a"]} />', '<C v-model={[...r]} />', '<C v-models={[[]]} />'];
   for (const m of malformed) for (const o of [{}, { optimize: true }]) out.push({ tag: 'malformed-directive', expectDiag: true, src: `const v = ${m};`, syntax: 'jsx', options: o });
   // deep nesting
